@@ -341,6 +341,37 @@ pub const PRELUDE_FAILS: &[(&[&str], &[u32], &str, &str, bool)] = &[
         "spd",
         true,
     ),
+    // a value pattern of a match arm whose comparison throws: reported at the arm
+    (
+        &["export PFEQ =", "  mk:", "    @==: |o| throw 'pe'", "export PFMATCH = |v|", "  match v", "    0 then 0", "    PFEQ.mk then 1", "    else 2"],
+        &[2, 6],
+        "PFMATCH(1)",
+        "pe",
+        true,
+    ),
+    // a `rest...` pattern tested against a value that cannot be sliced: reported at the arm
+    (
+        &["export PFREST = |a|", "  w = 0", "  match a, 1..3", "    x, (y, rest...) then 0", "    else 1"],
+        &[3],
+        "PFREST(1)",
+        "expected a sliceable value, found Range",
+        false,
+    ),
+    // `target.key = value` with two plain locals: reported at the assignment
+    (
+        &["export PFASSIGN = |t, v|", "  w = 0", "  t.key = v"],
+        &[2],
+        "PFASSIGN(5, 1)",
+        "expected a value that supports assignment via '.', found Number",
+        false,
+    ),
+    (
+        &["export PFAA =", "  @access_assign: |k, v| throw 'paa'", "export PFASSIGN2 = |t, v|", "  w = 0", "  t.key = v"],
+        &[1, 4],
+        "PFASSIGN2(PFAA, 1)",
+        "paa",
+        true,
+    ),
 ];
 
 /// One-argument functions whose LAST expression contains a bare `return` that is not always
@@ -357,6 +388,17 @@ pub const FALL: &[&[&str]] = &[
     &["if c", "  return", "else if c == 5", "  return"],
     &["match c", "  true then return", "  else null"],
     &["if not c", "  if c then return"],
+];
+
+/// Further fixed functions that are simply called (`xx = <call>`); the result is not used.
+/// (lines of the definition, the call)
+pub const MISC_FNS: &[(&[&str], &str)] = &[
+    // optional arguments + a closure, created while an error is being handled, that reaches an
+    // item of the core library (a non-local that is not captured) or an exported value which the
+    // function itself never touches
+    (&["export OPTF = |a, b = 1|", "  try", "    throw 'x'", "  catch _", "    g = || string.to_uppercase 'ab'", "    return g()"], "OPTF(1)"),
+    (&["export OPTG = |a, b = 1, c = 2|", "  h = || (|| (koto.type(1), string.to_uppercase('a')))()", "  h()"], "OPTG(1)"),
+    (&["export OPTH = |a, b = 1|", "  try", "    throw 'x'", "  catch _", "    g = || GM", "    return size g()"], "OPTH(1)"),
 ];
 
 /// statements that always fail, for `Stmt::Storm`
@@ -410,6 +452,45 @@ pub const STORM_SOURCES: &[&str] = &[
     "STORMOBJ += 1",
 ];
 
+/// statements that always SUCCEED, for `Stmt::Calm`: (set-up line, loop body, text of `xx`
+/// afterwards). CALMOBJ overrides every operator with a function written in Koto that returns
+/// normally; whatever a completed operator call leaves behind in the calling frame accumulates,
+/// because no ordinary call returns into the frame between the iterations
+pub const CALM_SOURCES: &[(&str, &str, &str)] = &[
+    ("xx = 0", "xx = CALMOBJ + 1", "11"),
+    ("xx = 0", "xx = CALMOBJ - 1", "12"),
+    ("xx = 0", "xx = CALMOBJ * 2", "13"),
+    ("xx = 0", "xx = CALMOBJ / 2", "14"),
+    ("xx = 0", "xx = CALMOBJ % 2", "15"),
+    ("xx = 0", "xx = CALMOBJ ^ 2", "16"),
+    ("xx = 0", "xx = 1 + CALMOBJ", "17"),
+    ("xx = 0", "xx = CALMOBJ < 1", "true"),
+    ("xx = 0", "xx = CALMOBJ <= 1", "true"),
+    ("xx = 0", "xx = CALMOBJ > 1", "false"),
+    ("xx = 0", "xx = CALMOBJ >= 1", "false"),
+    ("xx = 0", "xx = CALMOBJ == 1", "true"),
+    ("xx = 0", "xx = CALMOBJ != 1", "false"),
+    ("xx = 0", "xx = -CALMOBJ", "20"),
+    ("xx = 0", "xx = CALMOBJ[0]", "18"),
+    ("xx = 0", "xx = CALMOBJ(1)", "19"),
+    ("xx = 0", "xx = '{CALMOBJ}'", "CALM"),
+    ("xx = 0", "xx = size CALMOBJ", "21"),
+    ("xx = 0", "CALMOBJ[0] = rr", "0"),
+    ("xx = 0", "xx = [CALMOBJ] == [1]", "true"),
+    ("xx = 0", "xx = (CALMOBJ, CALMOBJ).min()", "CALM"),
+    ("xx = 0", "xx, yy = CALMOBJ", "22"),
+    ("xx = 0", "xx = CALMU + CALMOBJ", "17"),
+    ("xx = CALMOBJ", "xx += 1", "CALM"),
+    ("xx = 0", "xx = CALMOBJ + CALMOBJ * 2 - 1", "10"),
+    ("xx = 0", "xx = if CALMOBJ >= 1 then 1 else 2", "2"),
+    // operators overridden by NATIVE functions (as a host would install them)
+    ("xx = 0", "xx = CALMNAT + 1", "Number"),
+    ("xx = 0", "xx = CALMNAT * 'a'", "String"),
+    ("xx = 0", "xx = CALMNAT >= 1", "true"),
+    ("xx = 0", "xx = CALMNAT != 1", "true"),
+    ("xx = 0", "xx = CALMNAT < 1", "false"),
+];
+
 #[derive(Clone, Debug)]
 pub enum ThrowKind {
     Str(u32),
@@ -420,6 +501,9 @@ pub enum ThrowKind {
     /// `throw MKERR<k>(` / `  <e>` / `)`, layout 2 = `throw` + an indented map block with
     /// `code`, `@type` and `@display` entries
     TypedLayout(u8, Expr, u8),
+    /// `throw {code: <e>}`: a plain map without a metamap (caught as thrown; only the
+    /// untyped map patterns and the catch-all accept it)
+    Plain(Expr),
 }
 
 #[derive(Clone, Debug)]
@@ -443,6 +527,9 @@ pub enum CatchKind {
     TypedOpt(u8),
     /// `catch {code: Number}`: a typed entry of a map pattern; accepts the typed throws
     MapCodeNum,
+    /// `catch {code, count}`: the second key is missing in every thrown map — and happens to be
+    /// the name of a core library function, which must not make the pattern match
+    MapCodeCount,
 }
 
 #[derive(Clone, Debug)]
@@ -527,9 +614,15 @@ pub enum Stmt {
     Fall(u8, bool),
     /// `xx = <call of PRELUDE_FAILS[k]>`
     PreludeFail(u8),
+    /// `xx = <call of MISC_FNS[k]>`
+    Misc(u8),
     /// `for rr in 0..<n>` / `try` / <a statement that always fails> / `catch e` / `i<v> += 1`:
     /// many errors caught in ONE frame (whatever a caught error leaves behind accumulates)
     Storm(u8, u8, u32),
+    /// <set-up> / `for rr in 0..<n>` / <a statement of CALM_SOURCES that always succeeds> /
+    /// `i<v> += (if '{xx}' == '<expected>' then 1 else 1000)`: many completed operator calls in
+    /// ONE frame
+    Calm(u8, u8, u32),
     /// `i<v> = loop` / `try` / pre… / `break <value>` / `catch e` / handler… / `break -7`:
     /// the break VALUE is evaluated inside the try block of a loop used as an expression
     LoopTryBreak(u8, u32, Block, Expr, Block),
@@ -885,7 +978,11 @@ impl<'a> Gen<'a> {
                 }
                 22..=23 if self.k.allow_throw && !c.in_finally => {
                     if self.k.allow_typed && self.r.chance(1, 5) {
-                        Stmt::Throw(ThrowKind::Num(self.small_int_expr(c)))
+                        if self.r.chance(1, 3) {
+                            Stmt::Throw(ThrowKind::Plain(self.small_int_expr(c)))
+                        } else {
+                            Stmt::Throw(ThrowKind::Num(self.small_int_expr(c)))
+                        }
                     } else if self.k.allow_typed && self.r.chance(1, 2) {
                         if self.r.chance(1, 3) {
                             Stmt::Throw(ThrowKind::TypedLayout(
@@ -930,6 +1027,8 @@ impl<'a> Gen<'a> {
                             } else {
                                 self.r.usize_below(PRELUDE_FAILS.len()) as u8
                             }),
+                            3 if self.r.chance(1, 3) => Stmt::Misc(self.r.usize_below(MISC_FNS.len()) as u8),
+                            3 if !self.p.type_checks_off => Stmt::PreludeFail(self.r.usize_below(PRELUDE_FAILS.len()) as u8),
                             4 if self.r.chance(1, 2) => Stmt::Fall(self.r.usize_below(FALL.len()) as u8, self.r.chance(1, 2)),
                             4 | 5 => Stmt::Tiny(
                                 self.r.below(3) as u8,
@@ -937,6 +1036,11 @@ impl<'a> Gen<'a> {
                                 self.r.chance(2, 3),
                             ),
                             0 => Stmt::MapIndexBadKey,
+                            2 if self.r.chance(1, 2) => Stmt::Calm(
+                                self.r.below(3) as u8,
+                                self.r.usize_below(CALM_SOURCES.len()) as u8,
+                                (*self.r.pick(&[2u32, 30, 100, 270, 270, 600])).min(self.k.max_storm * 3),
+                            ),
                             1 => Stmt::NativeOpFail(self.r.usize_below(NATIVE_OP_FAILS.len()) as u8),
                             _ => Stmt::Storm(
                                 self.r.below(3) as u8,
@@ -1027,6 +1131,7 @@ impl<'a> Gen<'a> {
                     3 => CatchKind::StringOpt,
                     4 => CatchKind::TypedOpt(self.r.range(1, 2) as u8),
                     5 => CatchKind::MapCodeNum,
+                    6 if self.r.chance(1, 2) => CatchKind::MapCodeCount,
                     _ => CatchKind::MapMissing,
                 }
             } else {
@@ -1041,9 +1146,10 @@ impl<'a> Gen<'a> {
         // selective catch the compiler allows in last position): what it does not accept must
         // propagate to the next enclosing handler
         let last_kind = if self.k.allow_typed && self.r.chance(1, 6) {
-            match self.r.below(4) {
+            match self.r.below(5) {
                 0 => CatchKind::MapCode,
                 1 => CatchKind::MapCodeTyped(self.r.range(1, 2) as u8),
+                2 => CatchKind::MapCodeCount,
                 _ => CatchKind::MapMissing,
             }
         } else {
@@ -1454,6 +1560,10 @@ impl Printer {
                 let e = self.expr(e);
                 self.line(indent, &format!("throw {e}"));
             }
+            Stmt::Throw(ThrowKind::Plain(e)) => {
+                let e = self.expr(e);
+                self.line(indent, &format!("throw {{code: {e}}}"));
+            }
             Stmt::Throw(ThrowKind::TypedLayout(k, e, layout)) => {
                 if *layout == 1 {
                     self.line(indent, &format!("throw MKERR{k}("));
@@ -1492,10 +1602,11 @@ impl Printer {
                         CatchKind::StringOpt => self.line(indent, "catch e: String?"),
                         CatchKind::TypedOpt(k) => self.line(indent, &format!("catch e: T{k}?")),
                         CatchKind::MapCodeNum => self.line(indent, "catch {code: Number}"),
+                        CatchKind::MapCodeCount => self.line(indent, "catch {code, count}"),
                     }
                     match c.kind {
                         CatchKind::NeverLocal(v) => self.line(indent + 1, &format!("caught({}, i{v})", t.id)),
-                        CatchKind::MapCode | CatchKind::MapCodeTyped(_) | CatchKind::MapCodeNum => {
+                        CatchKind::MapCode | CatchKind::MapCodeTyped(_) | CatchKind::MapCodeNum | CatchKind::MapCodeCount => {
                             self.line(indent + 1, &format!("caught({}, code)", t.id))
                         }
                         CatchKind::MapMissing => self.line(indent + 1, &format!("caught({}, nokey)", t.id)),
@@ -1533,6 +1644,7 @@ impl Printer {
             }
             Stmt::Fall(k, flag) => self.line(indent, &format!("xx = FALL{k}({flag})")),
             Stmt::PreludeFail(k) => self.line(indent, &format!("xx = {}", PRELUDE_FAILS[*k as usize].2)),
+            Stmt::Misc(k) => self.line(indent, &format!("xx = {}", MISC_FNS[*k as usize].1)),
             Stmt::AssignOrThrow(v, cexp, e, n, form) => {
                 let cexp = self.expr(cexp);
                 if *form == 0 {
@@ -1563,6 +1675,13 @@ impl Printer {
                 self.line(indent + 2, STORM_SOURCES[*k as usize]);
                 self.line(indent + 1, "catch e");
                 self.line(indent + 2, &format!("i{v} += 1"));
+            }
+            Stmt::Calm(v, k, n) => {
+                let (pre, body, expected) = CALM_SOURCES[*k as usize];
+                self.line(indent, pre);
+                self.line(indent, &format!("for rr in 0..{n}"));
+                self.line(indent + 1, body);
+                self.line(indent, &format!("i{v} += (if '{{xx}}' == '{expected}' then 1 else 1000)"));
             }
             Stmt::LoopTryBreak(v, id, pre, val, handler) => {
                 self.line(indent, &format!("i{v} = loop"));
@@ -1724,6 +1843,35 @@ pub fn print(p: &Program, opts: &PrintOpts) -> Printed {
     ] {
         pr.line(1, &format!("{key}: {body}"));
     }
+    pr.line(0, "export CALMOBJ =");
+    for (key, body) in [
+        ("@+", "|other| 11"),
+        ("@-", "|other| 12"),
+        ("@*", "|other| 13"),
+        ("@/", "|other| 14"),
+        ("@%", "|other| 15"),
+        ("@^", "|other| 16"),
+        ("@r+", "|other| 17"),
+        ("@+=", "|other| self"),
+        ("@index", "|i| 18"),
+        ("@index_assign", "|i, v| null"),
+        ("@call", "|x| 19"),
+        ("@negate", "|| 20"),
+        ("@<", "|other| true"),
+        ("@==", "|other| true"),
+        ("@display", "|| 'CALM'"),
+        ("@size", "|| 21"),
+        ("@iterator", "|| (22, 23)"),
+    ] {
+        pr.line(1, &format!("{key}: {body}"));
+    }
+    pr.line(0, "export CALMNAT =");
+    pr.line(1, "@+: koto.type");
+    pr.line(1, "@*: koto.type");
+    pr.line(1, "@<: number.is_nan");
+    pr.line(1, "@==: number.is_nan");
+    pr.line(0, "export CALMU =");
+    pr.line(1, "@+: |other| throw koto.unimplemented");
     for (k, t) in TINY.iter().enumerate() {
         pr.line(0, &format!("export TINY{k} = |a, b|"));
         for l in t.0 {
@@ -1734,6 +1882,11 @@ pub fn print(p: &Program, opts: &PrintOpts) -> Printed {
     for pf in PRELUDE_FAILS {
         prelude_fail_line.push(pr.cur_line());
         for l in pf.0 {
+            pr.line(0, l);
+        }
+    }
+    for (lines, _) in MISC_FNS {
+        for l in *lines {
             pr.line(0, l);
         }
     }
